@@ -294,6 +294,12 @@ func (s *Stream) startConsume(consumer Consumer, packetType PacketType, extra st
 	cs.Add(c)
 	vhook.At("join.added", c)
 
+	// 注册后再检查一次流状态：如果流在此期间已被关闭（关闭清理可能已经扫过），
+	// 由这里负责移除并关闭该消费者，保证不会遗留在已关闭的流上
+	if atomic.LoadInt32(&s.status) != StreamOK {
+		s.StopConsume(c.cid)
+	}
+
 	go c.consume()
 	return c.cid
 }
